@@ -132,6 +132,24 @@ pub fn cases(_tier: &str, seed: u64) -> Vec<Case> {
             }
         }
     }
+    // records whose RDATA names another type (an RRSIG covering t, an NSEC whose bitmap lists t): they are records of
+    // their own type, whatever they speak about - one per supported type, against the whole question list
+    for code in TYPE_CODES.iter() {
+        let covering = [
+            RData::RRSIG(simple_dns::rdata::RRSIG { type_covered: *code, algorithm: 8, labels: 2, original_ttl: 60, signature_expiration: 2, signature_inception: 1, key_tag: 7, signer_name: Name::new_unchecked("example"), signature: vec![1u8, 2, 3].into() }),
+            RData::NSEC(simple_dns::rdata::NSEC { next_name: Name::new_unchecked("b.example"), type_bit_maps: vec![simple_dns::rdata::TypeBitMap { window_block: (*code >> 8) as u8, bitmap: { let mut m = vec![0u8; (*code as usize % 256) / 8 + 1]; m[(*code as usize % 256) / 8] = 0x80 >> (*code % 8); m.into() } }] }),
+        ];
+        for rd in covering {
+            let own = rd.type_code();
+            let r = ResourceRecord::new(Name::new_unchecked("a.example"), CLASS::IN, 60, rd);
+            let mut c = Case::oracle_only().tag("covering-records");
+            for q in &qtypes {
+                let want = match q { QTYPE::ANY => Some(true), QTYPE::TYPE(x) => Some(*x == own), QTYPE::MAILB => Some(false), _ => None };
+                if let Some(w) = want { if r.match_qtype(*q) != w { c = c.fail("match-qtype", format!("a {:?} record speaking about type {} vs question {:?}: {}", own, code, q, !w)); } }
+            }
+            v.push(c);
+        }
+    }
     // records that carry a type without typed RDATA: RDLENGTH 0 on the wire (parsed), `RData::Empty(t)`
     // and `RData::NULL(t, ..)` built by hand; the type a record matches is the type it reports
     for (_, code) in IANA.iter().filter(|(_, c)| !matches!(TYPE::from(*c), TYPE::Unknown(_))) {
